@@ -43,6 +43,7 @@ func runC19(c *Ctx) {
 	c.Rule("C19.R1", "custom (Un)MarshalJSON pairs move the same (derived, shadow) field pairs in both directions", 20)
 	c.Rule("C19.R2", "no duplicate JSON keys at the winning depth; no hijacking promoted (Un)MarshalJSON", 40)
 	c.Rule("C19.R3", "the persisted dump reassembles every part of the effective model", 8)
+	c.Rule("C19.R5", "files written by the directory-mode dump carry the extension the loader requires", 2)
 	c.Rule("C19.R4", "producing the persisted dump writes only freshly allocated memory", 5)
 	c.NotDecided = append(c.NotDecided, "value-level equivalence of load(dump(load(x))) and load(x): defaults, omitempty vs explicit zero, duration/byte-size formatting (mosn.io/api)", "the shipped sample configurations (needs running the loader)", "per-filter free-form config maps")
 	c.Assumptions = append(c.Assumptions, "encoding/json field resolution rules (shallowest depth wins; ties at the same depth drop the key)", "helper conversions named in a pair (metadataToConfig/configToMetadata, duration wrappers) are inverse of each other")
@@ -122,6 +123,7 @@ func runC19(c *Ctx) {
 	}
 	c19TagLint(c, tp)
 	c19Dump(c)
+	c19FileNames(c)
 }
 
 // declaredMethod: method declared directly on T or *T (not promoted).
@@ -649,4 +651,101 @@ func loadedFieldOrLookup(v ssa.Value) (string, string, ssa.Value, bool) {
 		}
 	}
 	return loadedField(v)
+}
+
+// R5: writer/reader agreement of the directory mode (clusters_configs / router_configs): the loader
+// (utils.ReadJsonFile) silently ignores every file whose extension is not ".json", so every file name the dump
+// writes must end in ".json" — the extension has to be the last thing appended (no truncation afterwards).
+func c19FileNames(c *Ctx) {
+	pkg := "pkg/config/v2"
+	n := 0
+	for _, fn := range c.PkgFuncs(pkg) {
+		for _, cs := range callsIn(fn, false, func(cc *ssa.CallCommon) bool { return strings.HasSuffix(calleeName(cc), "utils.WriteFileSafety") }) {
+			n++
+			key := fmt.Sprintf("%s:written-file#%d", funcKey(fn), n)
+			name := cs.Instr.Common().Args[0]
+			ok, why := endsWithJSONExt(name, map[ssa.Value]bool{}, 0)
+			c.Check("C19.R5", key, cs.Instr.Pos(), ok, "file name ends in the literal \".json\" appended last", "the name of a dumped config file may not end in \".json\" ("+why+"): the loader ignores such files, so the cluster / virtual host silently disappears on reload")
+		}
+	}
+	if n < 2 {
+		c.Unresolved("C19.R5", fmt.Sprintf("WriteFileSafety calls in pkg/config/v2 (found %d)", n))
+	}
+}
+
+func endsWithJSONExt(v ssa.Value, seen map[ssa.Value]bool, depth int) (bool, string) {
+	if depth > 12 {
+		return false, "value flow too deep"
+	}
+	if seen[v] {
+		return true, ""
+	}
+	seen[v] = true
+	switch x := v.(type) {
+	case *ssa.BinOp:
+		if x.Op == token.ADD {
+			if k, ok := x.Y.(*ssa.Const); ok {
+				if s, ok := constString(k); ok && s == ".json" {
+					return true, ""
+				}
+			}
+			return endsWithJSONExt(x.Y, seen, depth+1)
+		}
+	case *ssa.Phi:
+		for _, e := range x.Edges {
+			if ok, why := endsWithJSONExt(e, seen, depth+1); !ok {
+				return false, why
+			}
+		}
+		return true, ""
+	case *ssa.Slice:
+		return false, "the name is truncated after the extension was appended"
+	case *ssa.UnOp:
+		if al, ok := x.X.(*ssa.Alloc); ok {
+			any := false
+			for _, r := range refs(al) {
+				if st, ok := r.(*ssa.Store); ok && st.Addr == ssa.Value(al) {
+					any = true
+					if ok, why := endsWithJSONExt(st.Val, seen, depth+1); !ok {
+						return false, why
+					}
+				}
+			}
+			return any, "no assignment found"
+		}
+	case *ssa.Call:
+		cc := x.Common()
+		if strings.HasSuffix(calleeName(cc), "filepath.Join") {
+			// variadic: the last element of the argument slice
+			if sl, ok := cc.Args[0].(*ssa.Slice); ok {
+				if al, ok := sl.X.(*ssa.Alloc); ok {
+					var last ssa.Value
+					lastIdx := int64(-1)
+					for _, r := range refs(al) {
+						if ia, ok := r.(*ssa.IndexAddr); ok {
+							idx, _ := constInt(ia.Index)
+							for _, r2 := range refs(ia) {
+								if st, ok := r2.(*ssa.Store); ok && idx > lastIdx {
+									last, lastIdx = st.Val, idx
+								}
+							}
+						}
+					}
+					if last != nil {
+						return endsWithJSONExt(last, seen, depth+1)
+					}
+				}
+			}
+			return false, "cannot resolve filepath.Join arguments"
+		}
+		if f := cc.StaticCallee(); f != nil && len(f.Blocks) > 0 && f.Pkg != nil && strings.HasPrefix(f.Pkg.Pkg.Path(), modPath) {
+			for _, in := range instrsWhere(f, isReturn) {
+				if ok, why := endsWithJSONExt(in.(*ssa.Return).Results[0], seen, depth+1); !ok {
+					return false, "via " + f.Name() + ": " + why
+				}
+			}
+			return true, ""
+		}
+	}
+	return false, fmt.Sprintf("name produced by %T", v)
 }
